@@ -163,7 +163,12 @@ def run(ctx):
     orig_inv = np.linalg.inv
 
     def rec_inv(a):
-        r = orig_inv(a)
+        try:
+            r = orig_inv(a)
+        except np.linalg.LinAlgError:
+            # numerically singular for LAPACK: the library then has NO floating-point candidate (fix F27); the model gets a candidate that fails its product check
+            recorded.append([[0] * len(a) for _ in range(len(a))])
+            raise
         recorded.append(np.array(np.rint(r), dtype=np.int64).tolist())
         return r
     cases, metas = [], []
@@ -190,6 +195,21 @@ def run(ctx):
                 # ill-conditioned unimodular matrices: the rounded floating-point inverse is off by more than 1/2 (finding F24)
                 n, modulo = 4, 0
                 mats = [unimodular(rng, 4, rng.randint(9, 14), rng.choice([2**10, 2**11, 2**12])) for _ in range(rng.randint(1, 2))]
+                if it % 12 == 11:
+                    # Fibonacci blocks [[F(k+1), F(k)], [F(k), F(k-1)]] (determinant +-1): from k = 40 LAPACK reports "Singular matrix" (finding F27)
+                    n = rng.randint(2, 4)
+                    mats = []
+                    for _ in range(rng.randint(1, 2)):
+                        k = rng.randint(34, 45)
+                        f = [0, 1]
+                        while len(f) < k + 2:
+                            f.append(f[-1] + f[-2])
+                        M = [[rng.choice([1, -1]) if i == j else 0 for j in range(n)] for i in range(n)]
+                        M[0][0], M[0][1], M[1][0], M[1][1] = f[k + 1], f[k], f[k], f[k - 1]
+                        rows = list(range(n))
+                        rng.shuffle(rows)
+                        mats.append([M[i] for i in rows])
+                    ctx.count("fibonacci_block_cases")
             elif r < 0.6:
                 modulo = 0
                 big = rng.choice([3, 10, 2**10, 2**20])
@@ -259,6 +279,11 @@ def run(ctx):
                                           dict(case, index=gi), True)
                 except Exception as ex:  # pylint: disable=broad-except
                     invs.append("(Err " + ERR.get(type(ex).__name__, "RuntimeErr") + ")")
+                    if modulo == 0:
+                        ei = exact_integer_inverse(mats[gi])
+                        if ei is not None and max(abs(v) for row in ei for v in row) < 2**62 and max(abs(v) for row in mats[gi] for v in row) < 2**31:
+                            ctx.violation("property_fails", f"MatrixGenerator.inv raised {type(ex).__name__} for an integer matrix whose inverse is an integer matrix "
+                                          "(determinant +-1)", dict(case, index=gi), True)
                 cands.append(recorded[0] if recorded else [[0] * n for _ in range(n)])
                 exacts.append(recorded_exact[0] if recorded_exact else None)
                 if recorded_exact:
